@@ -483,3 +483,63 @@ pub mod verif_hooks_info {
         Info::reset_to_prev_iterate(info, &mut v, &p);
     }
 }
+
+// Add-only access for the external verification harness (/verif, properties C01-C03).
+#[cfg(feature = "verif-hooks")]
+#[allow(missing_docs)]
+pub mod verif_info {
+    use super::*;
+
+    pub fn check_convergence_full<T: FloatT>(
+        info: &mut DefaultInfo<T>,
+        residuals: &DefaultResiduals<T>,
+        settings: &DefaultSettings<T>,
+    ) {
+        info.check_convergence_full(residuals, settings)
+    }
+    pub fn check_convergence_almost<T: FloatT>(
+        info: &mut DefaultInfo<T>,
+        residuals: &DefaultResiduals<T>,
+        settings: &DefaultSettings<T>,
+    ) {
+        info.check_convergence_almost(residuals, settings)
+    }
+    pub fn is_solved<T: FloatT>(info: &DefaultInfo<T>, tol_gap_abs: T, tol_gap_rel: T, tol_feas: T) -> bool {
+        info.is_solved(tol_gap_abs, tol_gap_rel, tol_feas)
+    }
+    pub fn is_primal_infeasible<T: FloatT>(
+        info: &DefaultInfo<T>,
+        residuals: &DefaultResiduals<T>,
+        tol_infeas_abs: T,
+        tol_infeas_rel: T,
+    ) -> bool {
+        info.is_primal_infeasible(residuals, tol_infeas_abs, tol_infeas_rel)
+    }
+    pub fn is_dual_infeasible<T: FloatT>(
+        info: &DefaultInfo<T>,
+        residuals: &DefaultResiduals<T>,
+        tol_infeas_abs: T,
+        tol_infeas_rel: T,
+    ) -> bool {
+        info.is_dual_infeasible(residuals, tol_infeas_abs, tol_infeas_rel)
+    }
+    /// `[prev_cost_primal, prev_cost_dual, prev_res_primal, prev_res_dual, prev_gap_abs, prev_gap_rel]`
+    pub fn prev<T: FloatT>(info: &DefaultInfo<T>) -> [T; 6] {
+        [
+            info.prev_cost_primal,
+            info.prev_cost_dual,
+            info.prev_res_primal,
+            info.prev_res_dual,
+            info.prev_gap_abs,
+            info.prev_gap_rel,
+        ]
+    }
+    pub fn set_prev<T: FloatT>(info: &mut DefaultInfo<T>, p: [T; 6]) {
+        info.prev_cost_primal = p[0];
+        info.prev_cost_dual = p[1];
+        info.prev_res_primal = p[2];
+        info.prev_res_dual = p[3];
+        info.prev_gap_abs = p[4];
+        info.prev_gap_rel = p[5];
+    }
+}
